@@ -21,3 +21,17 @@ silent("C40", "init-tuple-then-list",
              "        self._trainable_params = list(trainable_params) if trainable_params is not None else None")])
 silent("C40", "generic-handler-shallow-copy",
        [(BNP, "        new_op = copy.deepcopy(op)\n        new_op._data = tuple(params)", "        new_op = copy.copy(op)\n        new_op._data = tuple(params)")])
+fire("C40", "setter-keeps-insertion-order",
+     (QS, "        self._trainable_params = sorted(set(param_indices))", "        self._trainable_params = list(dict.fromkeys(param_indices))"),
+     "R-C40-canon", "trainable_params")
+fire("C40", "copy-carries-par_info-when-measurements-change",
+     (QS, "        # copy cached properties when relevant\n",
+          "        if \"operations\" not in update and \"par_info\" in self.__dict__:\n            new_qscript.__dict__[\"par_info\"] = self.par_info\n        # copy cached properties when relevant\n"),
+     "R-C40-cache", "QuantumScript.copy")
+fire("C40", "copy-carries-batch-size-unconditionally",
+     (QS, "        if not update.get(\"operations\"):\n            # batch size may change if operations were updated\n            new_qscript._batch_size = self._batch_size",
+          "        if not update.get(\"measurements\"):\n            # batch size may change if operations were updated\n            new_qscript._batch_size = self._batch_size"),
+     "R-C40-cache", "QuantumScript.copy")
+silent("C40", "copy-batch-size-guard-as-not-in",
+       [(QS, "        if not update.get(\"operations\"):\n            # batch size may change if operations were updated\n            new_qscript._batch_size = self._batch_size",
+             "        if \"operations\" not in update:\n            # batch size may change if operations were updated\n            new_qscript._batch_size = self._batch_size")])
